@@ -185,6 +185,15 @@ def coq_make(targets, timeout=2400):
 THEOREM_RE = re.compile(r"^\s*(?:Theorem|Lemma|Corollary)\s+([A-Za-z0-9_']+)", re.M)
 
 
+def coqchk(pid, timeout=1700):
+    """Independent re-check of props/<pid>.vo and everything it depends on (thorough tier). Returns (ok, summary)."""
+    rc, out = sh(["coqchk", "-silent", "-o", "-Q", ".", "M", "M.props." + pid], cwd=COQ, timeout=timeout)
+    tail = out[-3000:]
+    m = re.search(r"CONTEXT SUMMARY(.*)", out, re.S)
+    summary = " ".join((m.group(1) if m else tail).split())[:2500]
+    return rc == 0, summary
+
+
 def check_props(pid):
     """Builds props/<pid>.vo's dependencies, re-runs coqc on props/<pid>.v.
     Returns dict(obligations=[names], discharged=[names], failed={name: why}, assumptions={name: text}, log=str, cmd=str)."""
@@ -376,6 +385,14 @@ def run_check(pid, tier, seed):
     for n, why in props["failed"].items():
         problems.append(dict(kind="obligation", theorem=n, what=why))
     ctx.log("coq: %d/%d obligations discharged" % (len(props["discharged"]), len(props["obligations"])))
+    chk = None
+    if tier == "thorough" and not props["failed"] and not os.environ.get("VERIF_NO_COQCHK"):
+        with Lock("coq"):
+            ok, summary = coqchk(pid)
+        chk = dict(ok=ok, summary=summary)
+        ctx.log("coqchk: %s" % ("ok" if ok else "FAILED"))
+        if not ok:
+            problems.append(dict(kind="obligation", theorem="coqchk M.props." + pid, what="coqchk rejected the compiled development: " + summary[-600:]))
 
     results = mod.run(ctx)
     failures = []
@@ -446,6 +463,7 @@ def run_check(pid, tier, seed):
                       compared_with_model=r.compared, mismatches=len(r.mismatches), exhaustive=r.report.get("exhaustive", False),
                       distribution=r.report.get("distribution", {}), notes=r.report.get("notes", {}), error=r.error[:500]) for r in results],
         oracle_failures=len(failures), known_findings_seen=sorted(seen_known),
+        coqchk=chk if chk else "not run in this tier (thorough only: coqchk -silent -o -Q . M M.props.%s)" % pid,
         lint_problems=lint_problems,
     )
     evidence = dict(property_id=pid, tier=tier, seed=seed, level="proof", coverage=coverage,
